@@ -84,4 +84,24 @@ def spec (cs : Classes) (fuel c : Nat) : Labels :=
   | some l => l
   | none => cs.scrape (fnOf cs fuel c)
 
+
+/-! ## the class factory behind `as_macro_node` / `macro_node`
+
+`macro_node_factory` (a `classfactory`) keeps the classes it made in a registry keyed by the class name —
+the creator's bare `__name__`. The decorator first evicts the entry ("force a fresh class") and then asks
+the factory, which builds a class from the creator unless the registry still has one under that key.
+A class is identified with the creator it was built from. -/
+
+/-- `key c`: the registry key of creator `c` (its bare name); `evict c`: the key the wrapper clears first -/
+def makeClass (evict key : Nat → Nat) (reg : Nat → Option Nat) (c : Nat) : Nat × (Nat → Option Nat) :=
+  let reg1 := upd reg (evict c) none
+  match reg1 (key c) with
+  | some c' => (c', reg1)                           -- the factory hands back the class it already has
+  | none => (c, upd reg1 (key c) (some c))
+
+/-- a history of class creations: the creator each resulting class was built from -/
+def runMakes (evict key : Nat → Nat) : (Nat → Option Nat) → List Nat → List Nat
+  | _, [] => []
+  | reg, c :: cs => (makeClass evict key reg c).1 :: runMakes evict key (makeClass evict key reg c).2 cs
+
 end PwVerif.Preview
